@@ -1,8 +1,8 @@
 /-
   C12 — minimization reaches the exact boundary on threshold properties.
-  (initial set; `minimize` exactness for upward-closed conditions is in RapidProofs/MinimizeExact.lean)
 -/
 import RapidModel.Minimize
+import RapidProofs.MinimizeExact
 
 namespace Rapid.C12
 
@@ -20,5 +20,26 @@ theorem minimize_to_zero (u : UInt64) (cond : UInt64 → Bool) (hu : u ≠ 0) (h
   simp [minimize, hne, trySmall, hpos, small, h0]
 
 example : (minimize 1000 (fun x => x ≥ 37)).1 = 37 := by decide
+
+
+/-- **exactness**: for every threshold `θ ≤ u`, `minimize u (θ ≤ ·)` returns exactly `θ` — all
+    2^64 thresholds and all starting values (the tests sample 100) -/
+theorem minimize_reaches_threshold (u θ : UInt64) (h : θ ≤ u) : (minimize u (fun x => decide (θ ≤ x))).1 = θ :=
+  minimize_exact u θ h
+
+/-- `minimize u cond` asks `cond` only about values below `u`: result and probe sequence are
+    determined by `cond` on `[0, u)` -/
+theorem minimize_local (u : UInt64) (cond cond' : UInt64 → Bool) (h : ∀ x, x < u → cond x = cond' x) :
+    minimize u cond = minimize u cond' :=
+  minimize_congr u h
+
+/-- exactness for a block of a recorded bitstream: the recorded word `u` made the property
+    fail, the property fails for a replacement `x < u` iff `θ ≤ x` — then the block is
+    minimized to exactly `θ` -/
+theorem block_minimized_to_boundary (u θ : UInt64) (cond : UInt64 → Bool) (h : θ ≤ u)
+    (hc : ∀ x, x < u → cond x = decide (θ ≤ x)) : (minimize u cond).1 = θ :=
+  minimize_exact_on u θ cond h hc
+
+example : (37 : UInt64) ≤ 1000 := by decide
 
 end Rapid.C12
